@@ -148,7 +148,8 @@ def build_resamples():
     from props import c12
     obs = []
     for o in c12.build_bootstrap() + c12.build_bootstrap_by_group():
-        if "group_names-and-flags-kept" in o.id or "returns-GroupScores" in o.id or "returns-without-raising" in o.id or "executes" in o.id:
+        if "group_names-and-flags-kept" in o.id or "returns-GroupScores" in o.id or "returns-without-raising" in o.id or "executes" in o.id \
+                or "ascending(class-invariant)" in o.id or "safety:" in o.id:
             o.id = o.id.replace("C12/bootstrap/", "C18/resamples/")
             o.props = ("C18",)
             o.meta.pop("key", None)
@@ -194,6 +195,8 @@ def oracle(case):
     cols = {f"g{k}": [gvals[k][i % len(gvals[k])] if i < len(gvals[k]) * 2 else rng.choice(gvals[k]) for i in range(n)] for k in range(ncol)}
     df = pd.DataFrame(cols)
     df["score"] = rng.choice([0.1, 0.3, 0.5, 0.7, 0.9], size=n) if case.get("ties") else rng.rand(n)
+    if case.get("int_scores"):
+        df["score"] = rng.randint(0, 11, size=n)          # integer ratings; thresholds may be fractional
     if case.get("degenerate"):
         df["score"] = float(case["threshold"])      # every score ties with the threshold: the metric is decided by equal_class alone
     df["label"] = rng.choice(case.get("labels", [0, 1]), size=n)
@@ -246,6 +249,16 @@ def oracle(case):
             bad = np.isnan(lo) & ~np.isnan(got) | ((lo > got + 1e-9) & (boot == "quantile") & False)
             if np.any(np.isnan(lo) & ~np.isnan(got) & (np.nanmin(exp, axis=0) != 0)):
                 return f"by_min-bootstrap: interval is NaN although the reported normalised value is finite (the replicates are not normalised by the per-replicate minimum over groups) {info}"
+        # the replicates come from GroupScores.bootstrap_sample with this configuration: each resample must be a well-formed object
+        # (ascending scores, labels attached) or its group-wise metrics are not metrics of any data
+        from score_analysis import GroupScores
+        gkey = df[keycols].astype(str).agg("_".join, axis=1).values if ncol > 1 else df[keycols[0]].values
+        gs = GroupScores.from_labels(df["label"].values, df["score"].values, gkey, pos_label=pl, score_class=sc, equal_class=ec)
+        np.random.seed(case["seed"] + 11)
+        for _ in range(4):
+            b_ = gs.bootstrap_sample(kw["bootstrap_config"])
+            if np.any(np.diff(b_.pos) < 0) or np.any(np.diff(b_.neg) < 0):
+                return f"a bootstrap resample used for the intervals has unsorted scores (its metrics do not equal direct counting) {info}"
         if case.get("degenerate") and boot == "quantile" and norm is None:
             # every resample of all-tied data has the same metric as the data wherever it is defined: a degenerate interval at the value
             fin = np.isfinite(lo) & np.isfinite(got)
@@ -312,6 +325,9 @@ def bounded(chk):
         for gv in ([["a", "a1", "A"], ["x", "Y"]], [["b", "b-", "b~"], ["0", "z"]], [["1", "10", "1a"], ["p", "q"], ["r", "s"]]):
             for norm in (None, "by_min"):
                 items.append({"n": 40, "metric": "fnr", "normalize": norm, "threshold": [0.4, 0.6], "sc": "pos", "ec": "pos", "seed": chk.seed * 100 + seed, "ncol": len(gv), "gvals": gv})
+        for thr in (2.5, [2.5, 7.25]):
+            for sc, ec in (("pos", "pos"), ("neg", "pos")):
+                items.append({"n": 24, "metric": "fnr", "normalize": None, "threshold": thr, "sc": sc, "ec": ec, "seed": chk.seed * 100 + seed, "ncol": 1, "gvals": [["a", "b"]], "int_scores": True})
         # values containing the join character, several group columns (known finding)
         items.append({"n": 16, "metric": "fnr", "normalize": None, "threshold": 0.5, "sc": "pos", "ec": "pos", "seed": chk.seed * 100 + seed, "ncol": 2, "gvals": [["a_b", "a"], ["c", "b_c"]]})
     chk.bounded["bound"] = "frames with 12..30 rows, 1..3 group columns (values incl. 'a_b', '_', 'c d', a single group), all ConfusionMatrix metric names, thresholds scalar / list, normalize None / by_overall / by_min, 2 configurations, bootstrap off / quantile / bc / bca (incl. by_group stratification); every entry recomputed directly from the group's rows"
